@@ -425,6 +425,8 @@ def gen_history(rng, nmax=6, with_regen=False, ninv=None, with_pools=False, with
             targets, after_restat = after_restat, None       # right after `-t restat`: the same request, nothing edited -> nothing to do
         elif with_restat and r > 0 and r + 1 < ninv and rng.random() < 0.12:
             adopt, after_restat = True, list(targets)        # `-t restat`: the present state counts as up to date, no command runs
+            # give it something to adopt: the generator's template (when there is one) or a source has just been touched
+            steps.append("touch %s" % hx(("rules.in" if with_regen == "include" else "manifest.in") if with_regen else rng.choice(info["sources"])))
         script = S.gen_script(rng, rng.randint(0, 8), fail_rate=rng.choice([0, 0, 0, 0.2]), interrupt_rate=rng.choice([0, 0, 0.05]))
         steps.append(S.inv_cmd(j, k, adopt, targets, script, manifest=mspell))
         invs.append({"j": j, "k": k, "adopt": adopt, "targets": targets, "files": dict(files), "nsteps": len(steps), "manifest": mspell})
